@@ -33,7 +33,10 @@ def run(ctx):
     ]
     if exe:
         if ctx.replay:
-            rc, out = core.sh([exe, "replay", "-repo", core.REPO, "-file", ctx.replay])
+            cmd = [exe, "replay", "-repo", core.REPO, "-file", ctx.replay]
+            if '"src"' not in open(ctx.replay).read():
+                cmd += ["-trimmer", ctx.go_build_repo("./tool/trimmer", "trimmer")]
+            rc, out = core.sh(cmd)
             fails = json.loads(out.strip().split("\n")[-1]) if rc == 0 else []
             for f in fails:
                 ctx.add_violation(f["key"], f["what"], f["input"], f["expected"], f["observed"])
